@@ -506,7 +506,7 @@ def run_dir2(case, layouts, manifests, wd: Path):
             rng.shuffle(entries)
         data = {'utc_timestamp': f'2026-0{k + 1}-01 10:00:00.000000', 'files': entries}
         if case['style'] == 'utf8' or rng.random() < 0.3:
-            data['note'] = 'écrit par le writer de référence — 参照'      # raw UTF-8 in the 'utf8' style, \\u-escaped otherwise
+            data['note'] = 'écrit par le writer de référence — 参照'      # raw UTF-8 in the 'utf8' style, \u-escaped otherwise
         elif rng.random() < 0.5:
             data['note'] = 'written by the reference writer'
         w.put_snapshot(table, data)
